@@ -31,6 +31,9 @@ type CrashCase struct {
 	// FailStartMod > 0: the engine refuses to start every FailStartMod-th container it creates, so the
 	// interrupted deployment is one with failing instances (its steps include their compensation)
 	FailStartMod int `json:"fail_start_mod,omitempty"`
+	// Late: the crash position is taken from the last third of the recorded steps (where the
+	// compensation of failed instances and the final commits happen) instead of from all of them
+	Late bool `json:"late,omitempty"`
 }
 
 func genC14(t *rapid.T) CrashCase {
@@ -46,8 +49,9 @@ func genC14(t *rapid.T) CrashCase {
 	}
 	c.Pick = rapid.Uint32().Draw(t, "pick")
 	c.After = rapid.Bool().Draw(t, "after")
-	if vt.Chance(t, "failingInstances", 30) {
+	if vt.Chance(t, "failingInstances", 45) {
 		c.FailStartMod = rapid.SampledFrom([]int{1, 2, 2, 3}).Draw(t, "failStartMod")
+		c.Late = vt.Chance(t, "lateCrash", 60)
 	}
 	c.All = vt.Tier() == "thorough" && vt.Chance(t, "allSteps", 2) // every crash position of one deployment: ~200 crash/recover rounds
 	return c
@@ -121,6 +125,9 @@ func runC14(x *vt.Ctx, c CrashCase) *vt.Finding {
 	}
 	x.Label("strategy=%s", c.Deploy.Strategy)
 	positions := []int{int(c.Pick % uint32(len(steps)+1))}
+	if c.Late {
+		positions = []int{len(steps) - int(c.Pick%uint32(len(steps)/3+1))}
+	}
 	flavours := []bool{c.After}
 	if c.At != nil {
 		for i, st := range steps {
